@@ -86,6 +86,11 @@ def gen(ctx, force_mode=None):
         # Equal Shares ignores the cost of an initial allocation (its quantifier is "initial allocation empty"),
         # so it can only be the FIRST rule of a completion sequence
         cfg["rules"] = [rng.choice(specs)] + [rng.choice(specs[1:]) for _ in range(k - 1)]
+        if k >= 2 and rng.random() < 0.3:
+            # the SAME rule function twice with different parameters (round 8, C09-r8A: a memo keyed by the rule and the pending allocation
+            # only): Equal Shares under one measure, then under another — judged only when the first run bought nothing (see OutsideQuantifier)
+            other = [x for x in ("Cost_Sat", "Cardinality_Sat") if x != sat] or ["Cost_Sat"]
+            cfg["rules"] = ["mes:" + sat, "mes:" + other[0]] + cfg["rules"][2:]
         if cfg["rules"][0].startswith("mes") is False and rng.random() < 0.3:
             cfg["init"] = core.gen_init(rng, case)
         if any(r.startswith("mes") for r in cfg["rules"][1:]) is False and rng.random() < 0.2:
@@ -182,6 +187,11 @@ def run_wrapper(case, cfg, built):
                                     voter_budget_increment=core.to_num(cfg["inc"]))
 
 
+class OutsideQuantifier(Exception):
+    """the sequence hands Equal Shares a non-empty start (it ignores the cost of an initial allocation: its quantifier is "initial
+    allocation empty"): such a case is not judged"""
+
+
 def reference(case, cfg, built):
     """plain loop around the library's own base rule; returns (answer, tries)"""
     from pabutools.election import Instance
@@ -217,10 +227,12 @@ def reference(case, cfg, built):
         allocs = [sorted(case.ids(cfg["init"]))]
         resl = []
         tries = 0
-        for spec in cfg["rules"]:
+        for k_, spec in enumerate(cfg["rules"]):
             tries += 1
             outs = []
             for a in allocs:
+                if k_ > 0 and spec.startswith("mes") and a:
+                    raise OutsideQuantifier()
                 outs.extend(call(spec, case.budget, [projs[case.names[i]] for i in a]))
             if res:
                 if exhaustive(case, outs[0]):
@@ -284,6 +296,14 @@ def check(case, cfg, stats=None):
     built = rules.Built(case, multi=cfg.get("multi", False))
     sig = {"mode": cfg["mode"], "res": cfg["res"], "rule": cfg.get("rule") or ",".join(cfg.get("rules", [])) or "mes"}
     budget_before = toF(built.inst.budget_limit)
+    if cfg["mode"] == "completion" and any(r.startswith("mes") for r in cfg["rules"][1:]):
+        try:
+            reference(case, cfg, rules.Built(case, multi=cfg.get("multi", False)))
+        except OutsideQuantifier:
+            stats["outside"] = True
+            return built, None, [], 0
+        except Exception:  # noqa: BLE001 - judged below
+            pass
     try:
         out = run_wrapper(case, cfg, built)
     except Exception as e:  # noqa: BLE001
